@@ -263,6 +263,8 @@ def run_check(mod, tier: str, replay: Optional[str]) -> int:
 
     violations: list[tuple[str, str, str]] = []   # (sig, replay path, detail)
     known_lines: list[str] = []
+    known_entries: list[dict] = []
+    known_hit: set[str] = set()
     known_sigs: list[str] = []
     # 1. replay tier: known findings + committed regression replays
     for e in load_known(prop):
@@ -273,9 +275,9 @@ def run_check(mod, tier: str, replay: Optional[str]) -> int:
         detail = mod.replay(case) if case is not None else None
         if status == 'known':
             known_sigs.extend(e.get('signatures', []))
+            known_entries.append(e)
             if detail:
-                known_lines.append(
-                    f"KNOWN-FINDING: property={prop} {e['what']}")
+                known_hit.add(e['id'])
         elif status == 'fixed':
             if detail:
                 path = _write_replay(prop, 'regression-' + e['id'], case,
@@ -319,6 +321,9 @@ def run_check(mod, tier: str, replay: Optional[str]) -> int:
     for sig, b in sorted(total.buckets.items()):
         if sig_matches(sig, known_sigs):
             excluded += b['count']
+            for e in known_entries:
+                if sig_matches(sig, e.get('signatures', [])):
+                    known_hit.add(e['id'])
             continue
         case, detail = b['case'], b['detail']
         if hasattr(mod, 'shrink'):
@@ -339,9 +344,16 @@ def run_check(mod, tier: str, replay: Optional[str]) -> int:
         seen_final.add(sig)
         if sig_matches(sig, known_sigs):
             excluded += b['count']
+            for e in known_entries:
+                if sig_matches(sig, e.get('signatures', [])):
+                    known_hit.add(e['id'])
             continue
         path = _write_replay(prop, case_hash(sig), case, detail, sig=sig)
         violations.append((sig, path, detail))
+
+    for e in known_entries:
+        if e['id'] in known_hit:
+            known_lines.append(f"KNOWN-FINDING: property={prop} {e['what']}")
 
     # 4. evidence
     wall = time.time() - t0
